@@ -195,9 +195,67 @@ func (b *Builder) dict(n *Node) jen.Dict {
 
 // Stmt builds a statement node.
 func (b *Builder) Stmt(n *Node) *jen.Statement {
-	s := &jen.Statement{}
-	b.applyAll(s, n.Calls, 0)
-	return s
+	// a statement with room to grow (a caller may well allocate one like this): appends then write into
+	// the existing backing array, so storage shared by mistake between two statements shows at once
+	st := make(jen.Statement, 0, 16)
+	s := &st
+	k := cloneAt(n.Calls)
+	if k < 0 || NoCloneForm {
+		b.applyAll(s, n.Calls, 0)
+		return s
+	}
+	// The chain is continued on a clone from call k on: base.A().B() and base.Clone().A().B() render the
+	// same (a clone shows its original followed by its own tokens). A second clone of the same base gets
+	// other tokens once the first has received its first one: whatever is appended to one clone is no
+	// business of the other.
+	b.applyUpTo(s, n.Calls, 0, k)
+	real := s.Clone()
+	b.applyUpTo(real, n.Calls, k, k+1)
+	decoy := s.Clone()
+	decoy.Id("ZZDECOY").Op("=").Lit(424242).Id("ZZDECOY2")
+	b.applyUpTo(real, n.Calls, k+1, len(n.Calls))
+	return real
+}
+
+// NoCloneForm switches the clone form of Stmt off (for checks that count the items of a statement).
+var NoCloneForm bool
+
+// cloneAt picks, as a function of the call chain alone, the call from which Stmt continues on a clone
+// (-1: not at all; one chain in three). Never between Case / Default and the Block that follows it:
+// adjacency in one statement is the documented trigger of the case-block format.
+func cloneAt(calls []Call) int {
+	if len(calls) < 2 {
+		return -1
+	}
+	h := uint32(2166136261)
+	for _, c := range calls {
+		for i := 0; i < len(c.Fn); i++ {
+			h = (h ^ uint32(c.Fn[i])) * 16777619
+		}
+		h = (h ^ uint32(len(c.Items))) * 16777619
+	}
+	if h%3 != 0 {
+		return -1
+	}
+	k := 1 + int(h/3)%(len(calls)-1)
+	if isCaseHead(&calls[k-1]) && strings.HasPrefix(calls[k].Fn, "Block") {
+		return -1
+	}
+	return k
+}
+
+// applyUpTo applies calls[from:to] (prev / next for the adjacency rules come from the whole chain).
+func (b *Builder) applyUpTo(s *jen.Statement, calls []Call, from, to int) {
+	for i := from; i < to; i++ {
+		var prev, next *Call
+		if i > 0 {
+			prev = &calls[i-1]
+		}
+		if i+1 < len(calls) {
+			next = &calls[i+1]
+		}
+		b.apply(s, &calls[i], prev, next)
+	}
 }
 
 func (b *Builder) applyAll(s *jen.Statement, calls []Call, from int) {
